@@ -378,9 +378,9 @@ def corrupt_one(records, salt=1):
                 hit(v, state)
 
     recs = copy.deepcopy(records)
-    # corrupt the (salt)-th observed field of up to 40 records spread over the batch (a single record may be one whose
-    # corrupted field the property legitimately ignores, e.g. the allocation of a case that was refused)
-    step = max(1, len(recs) // 40)
+    # corrupt the (salt)-th observed field of up to 400 records spread over the batch (a single record may be one whose
+    # corrupted field the property legitimately ignores, e.g. the allocation of a case that was refused or the totals of an aborted run)
+    step = max(1, len(recs) // 400)
     for idx in range(step // 2, len(recs), step):
         hit(recs[idx], dict(n=0, target=salt, done=False))
     return recs
